@@ -20,7 +20,13 @@ func Equal(a Value, b Value) bool {
 	if a.Format().IsList() {
 		return reflect.DeepEqual(a.Value(), b.Value())
 	}
-	return a.(Comparable).Compare(b.(Comparable)) == 0
+	ca, aCanCompare := a.(Comparable)
+	cb, bCanCompare := b.(Comparable)
+	if !aCanCompare || !bCanCompare {
+		// bits, empty and any have no order, only equality
+		return reflect.DeepEqual(a.Value(), b.Value())
+	}
+	return ca.Compare(cb) == 0
 }
 
 func EqualVals(a []Value, b []Value) bool {
